@@ -20,7 +20,8 @@ RULE = (
     "a plan = NCP window K in 1..3, host sends / NCP sends / cancellations of a host caller at generated instants, and a "
     "fate {deliver, drop, detectable corruption, duplicate, stall 3.5 s} for the n-th frame of each direction (random plans) "
     "or for the first d frames in global emission order (exhaustive part: all 5^d assignments, d = 4 quick / 6 thorough, for "
-    "a fixed 2+2 payload workload, for each K); a third plan family aims faults only at transmissions of a cancelled payload. "
+    "a fixed 2+2 payload workload, for each K); a third plan family aims faults only at transmissions of a cancelled payload; a fourth aims a fate at each of the five "
+    "transmissions of one live payload (all 5^5 assignments enumerated, plus generated mixtures with lost ACK/NAK frames). "
     "Non-trivial = a non-deliver fate landed on a DATA, ACK or NAK frame and at least one payload was delivered in each "
     "direction; distinct by plan."
 )
@@ -175,7 +176,8 @@ def check(plan, host_factory=None) -> Result:
     # (e) progress where nothing excuses failure
     faults = [h for h in w.line.h2n.hits + w.line.n2h.hits]
     cancelled_payloads = {hpayload(i, 0)[:2] for i in w.cancelled}
-    only_targeted = bool(plan.get("ft")) and not plan.get("fh") and not plan.get("fn") and not plan.get("fg")
+    only_targeted = (bool(plan.get("ft")) and not plan.get("fh") and not plan.get("fn") and not plan.get("fg")
+                     and not plan.get("budget"))
     if not faults or only_targeted:
         for p in w.h_sub:
             if p[:2] in cancelled_payloads:
@@ -278,6 +280,43 @@ def targeted_plans(draw):
     return {"K": K, "ops": ops, "ft": ft}
 
 
+@st.composite
+def budget_plans(draw):
+    """Faults aimed at the (up to five) transmissions of ONE live host payload - mixtures of loss, corruption (-> NAK),
+    duplication and stalls across the whole retry budget - with independent faults on the return path (lost ACK/NAK)."""
+    K = draw(st.integers(1, 3))
+    n = draw(st.integers(1, 6))
+    ti = draw(st.integers(0, n - 1))
+    ops = []
+    t = 0.0
+    for i in range(n):
+        t = round(t + draw(st.sampled_from([0.0, 0.001, 0.02, 0.5, 4.0])), 4)
+        ops.append(["h", t, draw(st.integers(0, 6))])
+        if draw(st.integers(0, 2)) == 0:
+            ops.append(["n", round(t + 0.0007, 4), draw(st.integers(0, 6))])
+    f5 = draw(st.lists(st.sampled_from([["x"], ["x"], ["c", 11], ["c", 3, 40], ["s", 3.5], ["s", 0.5], ["2"], ["d"]]), min_size=5, max_size=5))
+    ft = [{"tag": hpayload(ti, 0)[:2].hex(), "fates": [{"k": k + 1, "fate": f} for k, f in enumerate(f5)]}]
+    fn = draw(st.lists(st.sampled_from([["d"], ["d"], ["x"], ["c", 5], ["2"]]), max_size=8))
+    return {"K": K, "ops": ops, "ft": ft, "fn": fn, "budget": 1}
+
+
+def _worker_budget_exh(ctx, job):
+    """All 5^5 fate assignments to the five transmissions of the first of two host payloads."""
+    K, first = job
+    ops = [["h", 0.0, 2], ["n", 0.0005, 1], ["h", 0.001, 3]]
+    for rest in itertools.product(range(5), repeat=4):
+        f5 = [FATES[first]] + [FATES[i] for i in rest]
+        plan = {"K": K, "ops": ops, "budget": 1,
+                "ft": [{"tag": hpayload(0, 0)[:2].hex(), "fates": [{"k": k + 1, "fate": f} for k, f in enumerate(f5)]}]}
+        res = check(plan)
+        res.cls("budget-exhaustive")
+        ctx.check(plan, res, sample=(first == 1 and rest == (2, 1, 1)))
+
+
+def _worker_budget(ctx, n):
+    ctx.search(budget_plans(), check, max_examples=n)
+
+
 def _worker_exh(ctx, job):
     K, d, firsts = job
     ops = [["h", 0.0, 2], ["n", 0.0005, 2], ["h", 0.001, 3], ["n", 0.3, 1]]
@@ -317,3 +356,6 @@ def run(ctx):
     ctx.parallel(_worker_selftest, [60] * 4 if quick else [1500] * 8)
     ctx.parallel(_worker_random, [250] * 16 if quick else [12000] * 16)
     ctx.parallel(_worker_targeted, [80] * 16 if quick else [5000] * 16)
+    ctx.parallel(_worker_budget_exh, [(K, f) for K in (1, 2, 3) for f in range(5)])
+    ctx.exhaustive["all 5^5 fate assignments to the five transmissions of one host payload, K=1..3"] = True
+    ctx.parallel(_worker_budget, [120] * 16 if quick else [8000] * 16)
